@@ -472,12 +472,16 @@ def class_attr_types(cls, rounds=3, attrs=None, calls=None):
 
 # -------------------------------------------------------------------- rules built on the records
 
-def float_buffers(ctx, rule, rel, qual, floor=1, attrs=None, calls=None, what='computed values'):
+def float_buffers(ctx, rule, rel, qual, floor=1, attrs=None, calls=None, what='computed values', none_ok=False):
     """every buffer of `qual` that receives a computed (possibly fractional, or undecided) value by a subscript store or an in-place operator is float whatever the
     element type of the caller's arrays: the values are not truncated (store) and the operation is not refused (in-place operator)"""
     fn = ctx.fn(rel, qual)
     fl = DtypeFlow(fn, attrs=attrs, calls=calls)
     n = 0
+    if none_ok and not any((isinstance(x, ast.Subscript) and isinstance(x.ctx, ast.Store)) or isinstance(x, ast.AugAssign) for x in ast.walk(fn)):
+        # nothing is written by subscript or in place anywhere in the function: there is no buffer whose element type could truncate
+        ctx.ob(rule, '%s::%s' % (rel, qual), 'no buffer receives %s by a subscript store or an in-place operator (the result is assembled from the values themselves)' % what, True, node=fn, key='float buffer none ' + qual)
+        return fl
     for s in fl.stores:
         if not (may_be_fractional(s.val) or undecided(s.val)):
             continue
